@@ -101,8 +101,8 @@ func (g *srcGen) expr(depth int) string {
 		return g.atom()
 	case 2:
 		return "[" + g.list(depth, 0, 3) + "]"
-	case 3: // matrix literal
-		return "[" + g.list(depth, 1, 3) + ";" + s() + g.list(depth, 1, 3) + "]"
+	case 3: // (matrix literals are only accepted as call arguments: see stmt)
+		return "[" + g.list(depth, 2, 4) + "]"
 	case 4:
 		return "[" + g.expr(depth-1) + "," + s() + g.id() + "...]"
 	case 5:
@@ -196,6 +196,9 @@ func (g *srcGen) stmt(depth int, ind string) string {
 	case 0, 1, 2:
 		return ind + g.id() + s() + ":=" + s() + g.expr(depth)
 	case 3:
+		if g.r.Chance(40) { // matrix literal
+			return ind + "echo [" + g.list(depth, 1, 3) + ";" + s() + g.list(depth, 1, 3) + "]"
+		}
 		return ind + "echo " + g.list(depth, 1, 3)
 	case 4:
 		return ind + "println" + s() + g.expr(depth) + "," + s() + g.expr(depth-1)
